@@ -60,6 +60,7 @@ func gsNewWorld(nUsers int, fund sdk.Coins, t time.Time) *World {
 
 // gsProp is ProposalStore.Proposal as answered by QueryProp.
 type gsProp struct {
+	Raw        []byte // the bytes the contract returned (the ABI encoding of the record, produced by the compiled contract on the real EVM)
 	Id         *big.Int
 	Title      string
 	Desc       string
@@ -96,7 +97,7 @@ func gsQueryProp(w *World, ctx sdk.Context, from, port common.Address, id *big.I
 	if !ok {
 		return gsProp{}, fmt.Errorf("QueryProp: unexpected go type %T", out[0])
 	}
-	return gsProp{Id: v.Id, Title: v.Title, Desc: v.Desc, Targets: v.Targets, Values: v.Values, Signatures: v.Signatures,
+	return gsProp{Raw: res.Ret, Id: v.Id, Title: v.Title, Desc: v.Desc, Targets: v.Targets, Values: v.Values, Signatures: v.Signatures,
 		Calldatas: v.Calldatas}, nil
 }
 
